@@ -181,6 +181,8 @@ func c17(c *Ctx) (*report.Result, error) {
 
 	res.Explanation = "SSA of proto/compat.RepairUTF8Codec.Unmarshal/Marshal and convertAndRepairInvalidUTF8 (dominance of the delegate call, guards on every return, value identity of the returned error), of every function of proto/compat and the blob repair helpers of package interceptor (who writes into proto/1_22 messages), of interceptor.translateOneDataBlob / tryRepairInvalidUTF8InBlob (sibling agreement with the codec path), and of every grpc.NewClient / dial-option construction site of the module. Decides the control structure that makes the repair invisible on valid data and loud on failure; does not decide byte-level equality with the reference decode or U+FFFD placement (value-level)."
 	res.Assumptions = []string{"encoding.GetCodecV2(proto.Name) is the standard protobuf codec", "strings.ToValidUTF8 replaces exactly the invalid byte runs"}
+	res.RuleDoc["O17.7"] = "translation, access control and repair keep no memory between messages: no shipped function of the interceptor, proto/compat, auth and collect packages stores into package-level state, receiver fields or sync.Maps after construction - a cache keyed by message type or content makes the treatment of one message depend on the ones before it"
+	checkStateless(c, res, "O17.7", []string{"interceptor", "proto/compat", "auth", "collect"}, map[string]string{})
 	return res, nil
 }
 
